@@ -18,9 +18,9 @@ def queries(tier):
     nch = 2 if tier == 'quick' else 3
     store = 8 if tier == 'quick' else 12
 
-    def q(name, defs, nch=nch, store=store, **kw):
-        d = dict(defs, NCH=nch, STORE=store)
-        ud = dict(UD, KIT_MAX_bytes=8 * nch + 2)
+    def q(name, defs, nch=nch, store=store, maxw=4, **kw):
+        d = dict(defs, NCH=nch, STORE=store, MAXW=maxw)
+        ud = dict(UD, KIT_MAX_bytes=max(store + 1, maxw * nch + 2))
         us = dict(US, **{'memcpy.1': 8 * nch + 3, 'memcpy.0': 4, 'memset.1': 8 * nch + 3, 'memset.0': 4, 'memmove.2': 8 * nch + 3, 'memmove.3': 8 * nch + 3})
         qs.append(Query(name=name, harness='C12_string.c', units=UNITS, unit_defs=ud, defs=d, unwind=8, unwindset=us,
                         remove_bodies=EXC, cap=cap, backends=['cadical', 'minisat', 'kissat'], **kw))
@@ -34,6 +34,8 @@ def queries(tier):
         q('string-set![<=%d chars, any offset, any index, any char]' % n, {'OP': 3}, nch=n, store=st)
         q('substring[<=%d chars]' % n, {'OP': 5}, nch=n, store=st)
         q('string-concatenate[<=%d chars each]' % n, {'OP': 6}, nch=n, store=st)
+    # two characters of at most two bytes each: the cheapest shape with an index > 0 and a width change (quick tier)
+    q('string-set![<=2 chars of <=2 bytes, any offset, any index]', {'OP': 3}, nch=2, store=6, maxw=2)
     return qs
 
 
